@@ -808,6 +808,11 @@ pub fn judge(sc: &Scenario, obs: &Observed, cx: &mut Cx) -> Result<Result<(), St
                 if matches!(r.decision, Decision::Status(s) if s < 400) && r.transport == Transport::Grpc {
                     cx.class("fault:grpc-http-status-3xx");
                 }
+                if let Decision::GrpcStatus(c) | Decision::GrpcStatusTrailersOnly(c) = r.decision {
+                    // the collector picks the grpc-message text by status code (collector/src/grpc.rs grpc_message)
+                    cx.class_if(matches!(c.rem_euclid(9), 2 | 7), "fault:grpc-message-ends-with-a-raw-percent-sign");
+                    cx.class_if(matches!(c.rem_euclid(9), 4 | 5 | 6 | 8), "fault:grpc-message-with-percent-escapes");
+                }
                 if let Decision::WedgeConnection { keep_reading } = r.decision {
                     cx.class(if keep_reading { "wedge:still-reading" } else { "wedge:not-reading" });
                 }
